@@ -184,8 +184,8 @@ def impl_run(case):
                     calls["n"] = 0
                     try:
                         sr.roll()
-                    except (ValueError, RecursionError):
-                        pass
+                    except (ValueError, RecursionError, IndexError, TypeError):
+                        pass          # the operator's failure, or the source's own (a selection beyond its outcomes)
                     check(step)
                 continue
             elif k == "pool_twin":
